@@ -92,7 +92,15 @@ func runC18(c *c18Case) (v verdict, sig string, err error) {
 }
 
 func genFilter(t *rapid.T) []uint32 {
-	switch rapid.IntRange(0, 8).Draw(t, "filterkind") {
+	switch rapid.IntRange(0, 9).Draw(t, "filterkind") {
+	case 8:
+		// long lists: the entry that matters comes after several that never match
+		n := rapid.IntRange(4, 12).Draw(t, "longfilter")
+		f := make([]uint32, 0, n+1)
+		for i := 0; i < n; i++ {
+			f = append(f, uint32(3+i%7))
+		}
+		return append(f, rapid.SampledFrom([]uint32{1, 2}).Draw(t, "lastentry"))
 	case 7:
 		// an entry listed twice (a hand-edited or concatenated list) filters exactly like the entry listed once
 		return rapid.SampledFrom([][]uint32{{1, 1}, {2, 2}, {1, 1, 1}, {2, 1, 2}, {1, 2, 1, 2}, {3, 3, 1}}).Draw(t, "dupfilter")
@@ -108,7 +116,7 @@ func genFilter(t *rapid.T) []uint32 {
 		return []uint32{2, 2, 1}
 	}
 	// incl. values above the 12-bit format range whose low 12 bits are a standard type (they list no type at all)
-	return rapid.SliceOfN(rapid.OneOf(rapid.SampledFrom([]uint32{0, 1, 2, 3, 4, 5, 0xfff, 0x1000, 0x1001, 0x1002, 0x2001, 0xfffff001, 0xfffff002, 0xffffffff}), rapid.Uint32Range(0, 0xfff)), 0, 4).Draw(t, "filter")
+	return rapid.SliceOfN(rapid.OneOf(rapid.SampledFrom([]uint32{0, 1, 2, 3, 4, 5, 0xfff, 0x1000, 0x1001, 0x1002, 0x2001, 0xfffff001, 0xfffff002, 0xffffffff}), rapid.Uint32Range(0, 0xfff)), 0, 12).Draw(t, "filter")
 }
 
 func TestC18(t *testing.T) {
